@@ -7,7 +7,8 @@ from rig.netlist import Net
 from rig.place_and_route.constraints import \
     LocationConstraint, SameChipConstraint, RouteEndpointConstraint
 
-from rig.place_and_route.exceptions import InsufficientResourceError
+from rig.place_and_route.exceptions import \
+    InsufficientResourceError, InvalidConstraintError
 
 
 def add_resources(res_a, res_b):
@@ -88,6 +89,9 @@ def apply_reserve_resource_constraint(machine, constraint):
                     "Cannot meet {}".format(constraint))
     else:
         # Compensate for reserved resources at a specified location
+        if constraint.location not in machine:
+            raise InvalidConstraintError(
+                "Chip requested by {} unavailable".format(constraint))
         machine[constraint.location] = resources_after_reservation(
             machine[constraint.location], constraint)
         if overallocated(machine[constraint.location]):
